@@ -69,14 +69,14 @@ WRITE_PATTERNS = {
 FLUSH_PATTERNS = {'ok': [], 'fwb1': ['e:wb'], 'fwb2': ['e:wb', 'e:wb'], 'fother': ['e:other'], 'fintr': ['e:intr']}
 
 def history(cid, role, ops, peer, wpat='accept', fpat='ok', wbs=0, max_=None, tail=0, seed=7, rbs=4096,
-            mms=None, mfs=None, au=False, pre=b''):
+            mms=None, mfs=None, au=False, pre=b'', tail_op='f'):
     """peer: list of token names, one per read op (extra tokens are appended to the queue)"""
     rds = []
     for t in peer:
         rds += tok(role, t)
     if tail:
         tail = len(WRITE_PATTERNS[wpat]) + len(FLUSH_PATTERNS[fpat]) + 3
-    ops = list(ops) + ['f'] * tail
+    ops = list(ops) + [tail_op] * tail
     return ws.scase_line(cid, role, ops, rds, WRITE_PATTERNS[wpat], FLUSH_PATTERNS[fpat], wbs=wbs, max_=max_,
                          mms=mms, mfs=mfs, au=au, rbs=rbs, seed=seed, pre=pre)
 
@@ -103,9 +103,9 @@ def random_history(rng, cid, long=False, core=False, tight_prob=0.4):
         max_ = max(largest + rng.choice([0, 0, 1, 5, 20]), wbs + 1)
     tail = rng.choice([0, 3, 6])
     return history(cid, role, ops, peer, wpat, fpat, wbs, max_, tail, seed=rng.randint(0, 2**32 - 1),
-                   rbs=rng.choice([0, 1, 2, 5, 14, 64, 4096]))
+                   rbs=rng.choice([0, 1, 2, 5, 14, 64, 4096]), tail_op=rng.choice(['f', 'f', 'r', 'c:-']))
 
-def exhaustive_histories(prefix, length, roles='sc', uops=None, ptoks=None, wpats=('accept', 'wb2'), tight=(False, True), tail=4):
+def exhaustive_histories(prefix, length, roles='sc', uops=None, ptoks=None, wpats=('accept', 'wb2'), tight=(False, True), tail=4, tail_ops=('f', 'r')):
     """all op sequences of exactly `length` over uops; each read op gets every peer token (cross product)"""
     uops = uops or USER_CORE
     ptoks = ptoks or PEER_CORE
@@ -125,6 +125,7 @@ def exhaustive_histories(prefix, length, roles='sc', uops=None, ptoks=None, wpat
                 for wpat in wpats:
                     for tg in tight:
                         largest = max([op_frame_size(role, o) for o in ops] + [frame_size(role, 20)])
-                        out.append(history('%s%d' % (prefix, k), role, ops, peer, wpat, 'ok', 0, largest if tg else None, tail))
-                        k += 1
+                        for top in tail_ops:
+                            out.append(history('%s%d' % (prefix, k), role, ops, peer, wpat, 'ok', 0, largest if tg else None, tail, tail_op=top))
+                            k += 1
     return out
